@@ -33,7 +33,14 @@ factor = st.sampled_from([0.5, 2.0, 0.25, 4.0, 1.5, 3.0, 0.1, 10.0, -1.0, -2.0])
 
 @st.composite
 def spec(draw):
-    kind = draw(st.sampled_from(["surface", "surface", "tets", "polyline", "points"]))
+    kind = draw(st.sampled_from(["surface", "surface", "tets", "polyline", "points", "hexes"]))
+    if kind == "hexes":
+        a, b = draw(st.integers(1, 2)), draw(st.integers(1, 2))
+        idx = lambda i, j, k: (k * (b + 1) + j) * (a + 1) + i
+        V = [[float(i), float(j), float(k)] for k in range(2) for j in range(b + 1) for i in range(a + 1)]
+        C = [[idx(i, j, 0), idx(i + 1, j, 0), idx(i + 1, j + 1, 0), idx(i, j + 1, 0), idx(i, j, 1), idx(i + 1, j, 1), idx(i + 1, j + 1, 1), idx(i, j + 1, 1)]
+             for j in range(b) for i in range(a)]
+        return {"kind": kind, "V": V, "E": [], "F": [], "C": C}
     if kind == "surface":
         s = draw(G.surfaces(max_faces=14, max_ops=2, allow_sum=False))
         return {"kind": kind, "V": s["V"], "E": [], "F": s["F"], "C": []}
@@ -130,6 +137,15 @@ def read_mesh(m):
     F = [tuple(ints(f)) for f in m.faces] if hasattr(m, "faces") else []
     C = [tuple(ints(c)) for c in m.cells] if hasattr(m, "cells") else []
     return V, E, F, C
+
+
+def corner_records(m):
+    out = {}
+    for name in ("face_corners", "cell_corners", "cell_faces"):
+        if hasattr(m, name):
+            c = getattr(m, name)
+            out[name] = ([int(x) for x in c._elem] if hasattr(c, "_elem") else None, [int(x) for x in c._adj] if hasattr(c, "_adj") else None)
+    return out
 
 
 def snapshot(m):
@@ -316,6 +332,8 @@ def fn(case, ctx):
             elif not op[2]:
                 ctx.check(got.attr is None, "copy:attributes", f"{where}: copy without attributes carries the attribute")
             got.no_conn = getattr(mdl0, "no_conn", False)
+            ctx.check(corner_records(m) == corner_records(m0), "copy:corner-records",
+                      f"{where}: corner records (element, owner) of the copy differ from its source: {str(corner_records(m))[:200]} vs {str(corner_records(m0))[:200]}")
             add(m, got, parents=[mdl0])
             ctx.label("producer=copy", f"copy-attributes={op[2]}", f"copy-connectivity={op[3]}")
         elif kind == "boundary":
@@ -354,12 +372,11 @@ def fn(case, ctx):
             d = tempfile.mkdtemp(prefix="c06_")
             try:
                 p = os.path.join(d, "m." + fmt)
-                ok, _ = ctx.call("produce:save", M.mesh.save, m0, p)
-                if not ok: continue
                 try:
+                    M.mesh.save(m0, p)
                     m = M.mesh.load(p)
                 except Exception:
-                    continue      # what loads is C04's business
+                    continue      # what saves / loads is C04's business
             finally:
                 shutil.rmtree(d, ignore_errors=True)
             lm = snapshot(m)
